@@ -26,6 +26,15 @@ fn payload(i: usize, class: &str, seed: u64) -> String {
         while s.len() < len { s.push((b'a' + r.below(26) as u8) as char); }
         return s;
     }
+    // `Z<len>`: every item is <len> bytes of very repetitive text (a batch of them is far larger than the frame limit
+    // before compression and tiny after it)
+    if let Some(len) = class.strip_prefix('Z') {
+        let len: usize = len.parse().unwrap();
+        let mut s = format!("{i}|");
+        while s.len() < len { s.push_str("the quick brown fox jumps over the lazy dog. "); }
+        s.truncate(len);
+        return s;
+    }
     let body = match class { "s" => 0usize, "m" => 300, _ => 20_000 };
     let mut r = Rng::new(seed, &format!("item{i}"));
     let filler: String = (0..body).map(|_| (b'a' + r.below(26) as u8) as char).collect();
@@ -118,6 +127,11 @@ pub fn run(cfg: &Cfg) {
         for len in [max - 9, max - 10, max - 17, max - 18, max - 40] { cases.push(format!("pp bytes - - 3 X{len} y")); }
         cases.push(format!("pp string - - 2 X{} n", max - 9));
         for len in [max - 26, max - 27, max - 35] { cases.push(format!("pp bytes - 2:60000 3 X{len} y")); }
+        // batches that are larger than the frame limit before compression (each message well below it) and small after
+        for algo in ["zstd:bal", "lz4:-", "gzip:bal", "zlib:bal", "brg:bal"] {
+            cases.push(format!("pp string {algo} 4:60000 6 Z400000 y"));
+        }
+        cases.push("pp bytes zstd:bal - 3 Z1048000 y".into());
         for _ in 0..cfg.n(0, 400) {
             let all = crate::codec::algos();
             let algo = if r.chance(1, 4) { "-".to_string() } else { r.pick(&all).clone() };
